@@ -49,9 +49,15 @@ def case_poly2(ctx, cfg):
     ctx.nontrivial.update(hash((base, i)) for i in range(len(qs)))
     QC = G.PointCollection(np.array([fpt(q) for q in qs]))
     for cname, cls in polygon_class(G, name, len(verts)):
-        for dt in (float, np.int64):
-            P = cls(*[G.Point(np.array(list(v) + [1], dtype=dt)) for v in verts])
-            inputs = {"polygon": name, "vertices": verts, "class": cname, "dtype": np.dtype(dt).name}
+        for dt in (float, np.int64, "weighted"):
+            if dt == "weighted":
+                # the vertices in other homogeneous representatives (weights 2, -1, 3, 1/2 in turn)
+                wts = [(2.0, -1.0, 3.0, 0.5)[i % 4] for i in range(len(verts))]
+                P = cls(*[G.Point(np.array(list(v) + [1], dtype=float) * w) for v, w in zip(verts, wts)])
+                inputs = {"polygon": name, "vertices": verts, "class": cname, "dtype": "float64", "vertex_weights": wts}
+            else:
+                P = cls(*[G.Point(np.array(list(v) + [1], dtype=dt)) for v in verts])
+                inputs = {"polygon": name, "vertices": verts, "class": cname, "dtype": np.dtype(dt).name}
             r, e = ctx.call(P.contains, QC)
             ctx.trace(len(qs))
             if e is not None or np.shape(r) != exact.shape:
